@@ -193,8 +193,8 @@ static void run(Src &s) {
   TreeOpts to;
   to.max_consulted = 6;
   to.no_unsafe_merge = false;
-  Tree t = gen_tree(s, to);
-  Params pa = gen_params(s, t, to);
+  Params pa = gen_params(s, to);
+  Tree t = gen_tree(s, pa, to);
   std::vector<Consulted> cons = consulted_files(t, pa);
   if (cons.empty()) {
     g_case.desc = "tree without consulted files";
@@ -217,7 +217,7 @@ static void run(Src &s) {
   Injected in = inject(s, f);
   cons[vi].file->raw_override = in.text;
   cons[vi].file->has_override = true;
-  materialise(t, g_scr.dir);
+  materialise(t, pa, g_scr.dir);
   std::string expect_path = cons[vi].path(g_scr.dir);
   g_case.desc = "tree " + describe(t, pa) + " victim=" + cons[vi].rel + " kind=" + KIND_NAME[in.kind] + " line=" +
                 std::to_string(in.line) + " content='" + esc(in.text) + "'";
@@ -230,7 +230,8 @@ static void run(Src &s) {
   g_case.shape_hash = fnv_u64((uint64_t)in.kind * 100000 + (uint64_t)in.line * 100 + vi, tree_shape(t, pa));
 
   // an earlier consulted file may legitimately stop the read first only if it is malformed too - none is.
-  ReadResult rr = read_tree(t, pa, g_scr.dir, s.chance(50) ? RM_CONFIG_CB : RM_CONFIG, nullptr);
+  CbCtx cbx;
+  ReadResult rr = read_tree(t, pa, g_scr.dir, s.chance(50) ? RM_CONFIG_CB : RM_CONFIG, &cbx);
   bool handed = rr.kf != nullptr;
   bool keyless = false;
   if (handed) {
